@@ -196,8 +196,8 @@ theorem uniform_can_exceed_max :
 
 /-- after `setSeed s` the next raw word *and the whole successor state* do not depend on the generator's past
 (the stale buffer is discarded because `nextIndex = bufferSize` forces a refill) -/
-theorem nextRaw_setSeed (g₁ g₂ : RandomImpl) (s : UInt32) : (g₁.setSeed s).nextRaw = (g₂.setSeed s).nextRaw := by
-  simp [RandomImpl.nextRaw, RandomImpl.setSeed]
+theorem nextRaw_setSeed (g₁ g₂ : RandomImpl) (s : UInt32) : (g₁.setSeed s).nextRaw = (g₂.setSeed s).nextRaw :=
+  nextRaw_setSeed_aux g₁ g₂ s
 
 /-- **raw stream**: any two generators, whatever their histories, produce the same raw sequence after `setSeed s` -/
 theorem seed_determines_sequence (g₁ g₂ : RandomImpl) (s : UInt32) (n : Nat) :
@@ -227,6 +227,7 @@ def Gaussian.draws (cv : Nat → K) (log sqrt : K → K) (fuel : Nat) : Nat → 
   | 0, _ => []
   | n + 1, g => let (v, g') := g.getValue cv log sqrt fuel; v :: draws cv log sqrt fuel n g'
 
+omit [Sub K] [Neg K] [Div K] [OfNat K 0] [OfNat K 1] [OfNat K 2] [LT K] [DecidableLT K] [LE K] [DecidableLE K] [BEq K] in
 /-- **Uniform**: two `Uniform` objects with the same `min`/`range` produce identical value sequences after
 `setSeed s`, whatever they did before -/
 theorem uniform_seed_determines_sequence (cv : Nat → K) (u₁ u₂ : Uniform K) (s : UInt32) (n : Nat)
@@ -240,8 +241,9 @@ theorem uniform_seed_determines_sequence (cv : Nat → K) (u₁ u₂ : Uniform K
       intro a b h
       obtain ⟨hv, hs⟩ := uniform_step cv a b h
       simp only [Uniform.draws, hv, ih _ _ hs]
-  exact key n _ _ ⟨nextRaw_setSeed _ _ s, hmin, hrange⟩
+  exact key n _ _ (UEq_setSeed u₁ u₂ s hmin hrange)
 
+omit [LT K] [DecidableLT K] in
 /-- **Gaussian**: same statement; `setSeed` drops the cached second value, so the stale `nextGaussian` of either
 object cannot leak into the new stream -/
 theorem gaussian_seed_determines_sequence (cv : Nat → K) (log sqrt : K → K) (fuel : Nat)
@@ -256,7 +258,7 @@ theorem gaussian_seed_determines_sequence (cv : Nat → K) (log sqrt : K → K) 
       intro a b h
       obtain ⟨hv, hs⟩ := gauss_step cv log sqrt fuel a b h
       simp only [Gaussian.draws, hv, ih _ _ hs]
-  exact key n _ _ ⟨nextRaw_setSeed _ _ s, hmean, hsd, rfl, by simp [Gaussian.setSeed]⟩
+  exact key n _ _ (GEq_setSeed g₁ g₂ s hmean hsd)
 
 end Streams
 
@@ -311,8 +313,6 @@ theorem period_certification_certifies (st : Array UInt32) (h : 4 ≤ st.size) :
 /-- `period_certification` is idempotent -/
 theorem period_certification_idempotent (st : Array UInt32) (h : 4 ≤ st.size) :
     periodCertification (periodCertification st) = periodCertification st := by
-  have h1 := period_certification_certifies st h
-  conv_lhs => unfold periodCertification
-  simp [h1]
+  exact periodCertification_of_parity _ (period_certification_certifies st h)
 
 end C31
